@@ -11,6 +11,7 @@ import (
 	"sort"
 	"strings"
 	"sync"
+	"syscall"
 	"time"
 
 	tls "github.com/refraction-networking/utls"
@@ -163,13 +164,20 @@ func runRoller(sc rollerScenario, ids []string, table map[string]string, cert tl
 	defer l.Close()
 	srv := &rollerServer{l: l, accept: map[string]bool{}, table: table, cert: cert}
 	go srv.serve()
-	// an address nobody listens on
-	dl, err := net.Listen("tcp", "127.0.0.1:0")
+	// an address nobody listens on: a socket that is bound (so that no parallel scenario can get the port) but never listens
+	fd, err := syscall.Socket(syscall.AF_INET, syscall.SOCK_STREAM, 0)
 	if err != nil {
 		return err
 	}
-	dead := dl.Addr().String()
-	dl.Close()
+	defer syscall.Close(fd)
+	if err := syscall.Bind(fd, &syscall.SockaddrInet4{Addr: [4]byte{127, 0, 0, 1}}); err != nil {
+		return err
+	}
+	sa, err := syscall.Getsockname(fd)
+	if err != nil {
+		return err
+	}
+	dead := fmt.Sprintf("127.0.0.1:%d", sa.(*syscall.SockaddrInet4).Port)
 
 	r, err := tls.NewRoller()
 	if err != nil {
